@@ -256,6 +256,8 @@ type repOp struct {
 	N  int64  `json:"n"`
 }
 
+var rewardDenoms = []string{"stake", "uatom", "adenom", "zdenom", "ibc/0A1B", "ibc/FF00"}
+
 func h64(parts ...[]byte) int64 {
 	h := sha256.New()
 	for _, p := range parts {
@@ -316,7 +318,11 @@ func runReplica(t *testing.T, k repCase) []int64 {
 	params.MaxProviderConsensusValidators = k.M
 	params.NumberOfEpochsToStartReceivingRewards = 1
 	trace = append(trace, updDigest(env.InitGenesis(params)))
-	env.K.SetConsumerRewardDenom(env.Ctx, "stake")
+	// several registered reward denoms: a block then allocates more than one denom per consumer, so that the order of
+	// the per-denom bank/distribution operations and of their events is observable (seeded change C18-2)
+	for _, d := range rewardDenoms {
+		env.K.SetConsumerRewardDenom(env.Ctx, d)
+	}
 
 	type cons struct {
 		id      string
@@ -438,11 +444,13 @@ func runReplica(t *testing.T, k repCase) []int64 {
 			case "assign":
 				trace = append(trace, int64(len(env.Deliver(common.MsgAssignKey(c.id, v, common.Key(2000+int(op.N)%40).PubKey())).String())))
 			case "fund":
-				amt := sdk.NewCoins(sdk.NewInt64Coin("stake", op.N))
-				w.Fund(providertypes.ConsumerRewardsPool, amt)
-				cur, _ := env.K.GetConsumerRewardsAllocationByDenom(env.Ctx, c.id, "stake")
-				cur.Rewards = cur.Rewards.Add(sdk.NewDecCoinsFromCoins(amt...)...)
-				_ = env.K.SetConsumerRewardsAllocationByDenom(env.Ctx, c.id, "stake", cur)
+				for _, d := range []string{"stake", rewardDenoms[op.N%int64(len(rewardDenoms))], rewardDenoms[(op.N/7)%int64(len(rewardDenoms))]} {
+					amt := sdk.NewCoins(sdk.NewInt64Coin(d, op.N))
+					w.Fund(providertypes.ConsumerRewardsPool, amt)
+					cur, _ := env.K.GetConsumerRewardsAllocationByDenom(env.Ctx, c.id, d)
+					cur.Rewards = cur.Rewards.Add(sdk.NewDecCoinsFromCoins(amt...)...)
+					_ = env.K.SetConsumerRewardsAllocationByDenom(env.Ctx, c.id, d, cur)
+				}
 			case "slash":
 				if c.env == nil || !c.opened {
 					continue
